@@ -251,3 +251,213 @@ Proof.
     exists (d1 ++ d2). rewrite D2, D1, app_assoc. cbn [hoist_block]. rewrite E1, E2, declare_all_app.
     split; [auto|split; [auto|split; [auto|eapply dwf_app; eauto]]].
 Qed.
+
+(* ------------------------------------------------------------------ executing the array initialisation code *)
+Definition addr (d : arrdecl) : nat := fst (fst d).
+Fixpoint marr_after (ds : list arrdecl) (f : nat -> option (list (option Z))) : nat -> option (list (option Z)) :=
+  match ds with [] => f | d :: r => marr_after r (upd_nat f (addr d) (Some (decl_content d))) end.
+
+Lemma marr_after_app : forall a b f, marr_after (a ++ b) f = marr_after b (marr_after a f).
+Proof. induction a as [|d a IH]; intros b f; cbn; [reflexivity|apply IH]. Qed.
+
+Lemma marr_after_other : forall ds f a, ~ In a (map addr ds) -> marr_after ds f a = f a.
+Proof.
+  induction ds as [|d ds IH]; intros f a H; cbn; [reflexivity|].
+  rewrite IH by (intro X; apply H; right; exact X). unfold upd_nat.
+  destruct (Nat.eqb a (addr d)) eqn:E; [apply Nat.eqb_eq in E; exfalso; apply H; left; auto|reflexivity].
+Qed.
+
+Lemma marr_after_ext : forall ds f g, (forall a, f a = g a) -> forall a, marr_after ds f a = marr_after ds g a.
+Proof.
+  induction ds as [|d ds IH]; intros f g H a; cbn; [apply H|]. apply IH. intro a'. unfold upd_nat.
+  destruct (Nat.eqb a' (addr d)); [reflexivity|apply H].
+Qed.
+
+Lemma marr_declare_all : forall ds f ar, (forall a, f a = alookup a ar) ->
+  forall a, marr_after ds f a = alookup a (declare_all ds ar).
+Proof.
+  induction ds as [|d ds IH]; intros f ar H a; cbn; [apply H|]. apply IH. intro a'. unfold upd_nat, addr.
+  destruct (Nat.eqb a' (fst (fst d))) eqn:E.
+  - apply Nat.eqb_eq in E. subst. rewrite alookup_aset_same. reflexivity.
+  - apply Nat.eqb_neq in E. rewrite alookup_aset_other by exact E. apply H.
+Qed.
+
+Record same_ctl (s s' : mst) : Prop := mkSame {
+  sc_alloc : m_alloc s' = m_alloc s; sc_inst : m_inst s' = m_inst s; sc_n : m_n s' = m_n s;
+  sc_script : m_script s' = m_script s; sc_trace : m_trace s' = m_trace s
+}.
+Lemma same_ctl_refl : forall s, same_ctl s s.
+Proof. intro. constructor; reflexivity. Qed.
+Lemma same_ctl_trans : forall a b c, same_ctl a b -> same_ctl b c -> same_ctl a c.
+Proof. intros a b c [A1 A2 A3 A4 A5] [B1 B2 B3 B4 B5]. constructor; congruence. Qed.
+
+Definition InitOK (P : list sir) (done : list arrdecl) : Prop :=
+  forall s, exists s', sx P s s' /\ (forall a, m_arr s' a = marr_after done (m_arr s) a) /\ same_ctl s s'.
+
+Lemma list_set_app_mid : forall A (pre : list A) x rest v,
+  list_set (pre ++ x :: rest) (List.length pre) v = Some (pre ++ v :: rest).
+Proof. induction pre as [|p pre IH]; intros x rest v; cbn; [reflexivity|]. rewrite IH. reflexivity. Qed.
+
+(* the stores of distinct initial values *)
+Lemma stores_exec : forall a l pre s,
+  m_arr s a = Some (pre ++ repeat None (List.length l)) ->
+  exists s', sx (stores a (List.length pre) l) s s' /\ m_arr s' a = Some (pre ++ l) /\
+             (forall a', a' <> a -> m_arr s' a' = m_arr s a') /\ same_ctl s s'.
+Proof.
+  intros a l. induction l as [|x l IH]; intros pre s H; cbn [stores].
+  - exists s. cbn in H. split; [apply sx_nil|]. split; [exact H|]. split; [auto|apply same_ctl_refl].
+  - cbn [List.length repeat] in H.
+    assert (Hn : forall s0, m_arr s0 a = Some ((pre ++ [x]) ++ repeat None (List.length l)) ->
+              exists s', sx (stores a (S (List.length pre)) l) s0 s' /\ m_arr s' a = Some (pre ++ x :: l) /\
+                         (forall a', a' <> a -> m_arr s' a' = m_arr s0 a') /\ same_ctl s0 s').
+    { intros s0 H0. destruct (IH (pre ++ [x]) s0 H0) as (s' & X & A & O & C).
+      rewrite app_length in X. cbn in X. replace (List.length pre + 1) with (S (List.length pre)) in X by lia.
+      exists s'. rewrite <- app_assoc in A. cbn in A. auto. }
+    destruct x as [v|].
+    + set (s1 := set_arr s a (pre ++ Some v :: repeat None (List.length l))).
+      assert (E : exec_instr (IStore (PImm v) a (PImm (Z.of_nat (List.length pre)))) s = Some s1).
+      { cbn [exec_instr rop_val]. rewrite H, zidx_of_nat, list_set_app_mid. reflexivity. }
+      destruct (Hn s1) as (s' & X & A & O & C).
+      { unfold s1. cbn [set_arr m_arr]. unfold upd_nat. rewrite Nat.eqb_refl. rewrite <- app_assoc. reflexivity. }
+      exists s'. split; [eapply sx_cons; [apply sx_I; exact E|exact X]|]. split; [exact A|]. split.
+      * intros a' Ha'. rewrite (O a' Ha'). unfold s1. cbn [set_arr m_arr]. unfold upd_nat.
+        apply Nat.eqb_neq in Ha'. rewrite Ha'. reflexivity.
+      * eapply same_ctl_trans; [|exact C]. constructor; reflexivity.
+    + apply Hn. rewrite <- app_assoc. exact H.
+Qed.
+
+(* lower_array_init: the loop emitted for an array whose initial values are all equal *)
+Lemma init_loop_rounds : forall a v t k m pre s,
+  m_arr s a = Some (pre ++ repeat None k) -> List.length pre = m -> m_reg s (Rg BR t) = Some (Z.of_nat m) ->
+  exists s', sxloop (Rg BR t) (Z.of_nat (m + k)) 1 [XI (IStore (PImm v) a (PReg (Rg BR t)))] s s' /\
+             m_arr s' a = Some (pre ++ repeat (Some v) k) /\
+             (forall a', a' <> a -> m_arr s' a' = m_arr s a') /\ same_ctl s s'.
+Proof.
+  intros a v t k. induction k as [|k IH]; intros m pre s H Hm Hr.
+  - exists s. replace (m + 0) with m by lia. split; [apply sxl_done; exact Hr|]. cbn in *. split; [exact H|].
+    split; [auto|apply same_ctl_refl].
+  - cbn [repeat] in H.
+    set (s1 := set_arr s a (pre ++ Some v :: repeat None k)).
+    assert (E : exec_instr (IStore (PImm v) a (PReg (Rg BR t))) s = Some s1).
+    { cbn [exec_instr rop_val]. rewrite H, Hr, zidx_of_nat. subst m. rewrite list_set_app_mid. reflexivity. }
+    set (s2 := set_reg s1 (Rg BR t) (Z.of_nat m + 1)%Z).
+    destruct (IH (S m) (pre ++ [Some v]) s2) as (s' & X & A & O & C).
+    { unfold s2, s1. cbn [set_reg set_arr m_arr]. unfold upd_nat. rewrite Nat.eqb_refl. rewrite <- app_assoc. reflexivity. }
+    { rewrite app_length. cbn. lia. }
+    { unfold s2. rewrite m_reg_set_same. f_equal. lia. }
+    exists s'. split.
+    + eapply sxl_step with (v := Z.of_nat m) (v1 := Z.of_nat m).
+      * exact Hr.
+      * lia.
+      * apply sx_one. exact E.
+      * unfold s1. cbn [set_arr m_reg]. exact Hr.
+      * replace (m + S k) with (S m + k) by lia. exact X.
+    + split; [rewrite A, <- app_assoc; reflexivity|]. split.
+      * intros a' Ha'. rewrite (O a' Ha'). unfold s2, s1. cbn [set_reg set_arr m_arr]. unfold upd_nat.
+        apply Nat.eqb_neq in Ha'. rewrite Ha'. reflexivity.
+      * eapply same_ctl_trans; [|exact C]. constructor; reflexivity.
+Qed.
+
+Theorem lower_array_init : forall a v t len s,
+  m_arr s a = Some (repeat None len) ->
+  exists s', sx1 (XLoop (Rg BR t) 0 (Z.of_nat len) 1 [XI (IStore (PImm v) a (PReg (Rg BR t)))]) s s' /\
+             m_arr s' a = Some (repeat (Some v) len) /\
+             (forall a', a' <> a -> m_arr s' a' = m_arr s a') /\ same_ctl s s'.
+Proof.
+  intros a v t len s H.
+  destruct (init_loop_rounds a v t len 0 [] (set_reg s (Rg BR t) 0%Z)) as (s' & X & A & O & C); auto.
+  - apply m_reg_set_same.
+  - exists s'. split; [apply sx_Loop; exact X|]. split; [exact A|]. split; [exact O|].
+    eapply same_ctl_trans; [|exact C]. constructor; reflexivity.
+Qed.
+
+Lemma loopopt_repeat : forall l v, loopopt l = Some v -> l = repeat (Some v) (List.length l).
+Proof.
+  intros l v H. unfold loopopt in H. destruct l as [|[w|] [|y r]]; try discriminate.
+  destruct (forallb _ _) eqn:F; [|discriminate]. inv_ok H.
+  remember (Some v :: y :: r) as l eqn:El. clear El.
+  induction l as [|x l IH]; [reflexivity|]. cbn in F. apply andb_prop in F. destruct F as [F1 F2].
+  destruct x as [w|]; [|discriminate]. apply Z.eqb_eq in F1. subst. cbn. f_equal. apply IH. exact F2.
+Qed.
+
+Lemma marr_after_agree : forall ds f g a a',
+  (forall x, x <> a -> f x = g x) -> a' <> a -> marr_after ds f a' = marr_after ds g a'.
+Proof.
+  induction ds as [|d ds IH]; intros f g a a' H Hne; cbn; [apply H; exact Hne|].
+  apply IH with (a := a); [|exact Hne]. intros x Hx. unfold upd_nat.
+  destruct (Nat.eqb x (addr d)); [reflexivity|apply H; exact Hx].
+Qed.
+
+Lemma InitOK_snoc : forall P done d c,
+  InitOK P done -> ~ In (addr d) (map addr done) \/ True ->
+  (forall s, exists s', sx c s s' /\ m_arr s' (addr d) = Some (decl_content d) /\
+                        (forall a', a' <> addr d -> m_arr s' a' = m_arr s a') /\ same_ctl s s') ->
+  InitOK (P ++ c) (done ++ [d]).
+Proof.
+  intros P done d c HP _ Hc s. destruct (HP s) as (s1 & X1 & A1 & C1). destruct (Hc s1) as (s2 & X2 & A2 & O2 & C2).
+  exists s2. split; [eapply sx_app; eauto|]. split; [|eapply same_ctl_trans; eauto].
+  intro a. rewrite marr_after_app. cbn. unfold upd_nat. destruct (Nat.eqb a (addr d)) eqn:E.
+  - apply Nat.eqb_eq in E. subst. exact A2.
+  - apply Nat.eqb_neq in E. rewrite (O2 a E). apply A1.
+Qed.
+
+Lemma init_exec : forall ds P done st Pf stf,
+  init_code ds P st = Ok (Pf, stf) -> InitOK P done -> Forall decl_wf ds ->
+  NoDup (map addr (done ++ ds)) -> InitOK Pf (done ++ ds).
+Proof.
+  induction ds as [|[[a n] init] ds IH]; intros P done st Pf stf H HP W ND; cbn [init_code] in H.
+  - inv_ok H. rewrite app_nil_r. exact HP.
+  - inversion W as [|? ? Wd Wr]; subst.
+    assert (ND' : NoDup (map addr ((done ++ [(a, n, init)]) ++ ds))) by (rewrite <- app_assoc; exact ND).
+    assert (Eapp : forall x : arrdecl, done ++ x :: ds = (done ++ [x]) ++ ds) by (intro; rewrite <- app_assoc; reflexivity).
+    rewrite (Eapp (a, n, init)). clear Eapp.
+    destruct init as [l|].
+    + destruct Wd as [Hn Hn0]. destruct (loopopt l) as [v|] eqn:Lo.
+      * (* all equal: declaration, everything pending so far, then the loop *)
+        destruct (take st) as [[t st1]|] eqn:Ht; cbn [bind] in H; [|discriminate].
+        eapply IH; [exact H| |exact Wr|exact ND'].
+        assert (Hnot : ~ In a (map addr done)).
+        { rewrite map_app in ND. apply NoDup_remove_2 in ND. intro X. apply ND. apply in_or_app. left. exact X. }
+        intro s.
+        set (s1 := set_arr s a (repeat None n)).
+        assert (E1 : exec_instr (IArray (Z.of_nat n) a) s = Some s1).
+        { cbn [exec_instr]. destruct (Z.of_nat n <? 0)%Z eqn:Ez; [apply Z.ltb_lt in Ez; lia|]. rewrite Nat2Z.id. reflexivity. }
+        destruct (HP s1) as (s2 & X2 & A2 & C2).
+        assert (Ha2 : m_arr s2 a = Some (repeat None n)).
+        { rewrite A2, marr_after_other by exact Hnot. unfold s1. cbn [set_arr m_arr]. unfold upd_nat.
+          rewrite Nat.eqb_refl. reflexivity. }
+        rewrite Hn in Ha2.
+        destruct (lower_array_init a v t (List.length l) s2 Ha2) as (s3 & X3 & A3 & O3 & C3).
+        exists s3. split.
+        { cbn [app]. eapply sx_cons; [apply sx_I; exact E1|]. eapply sx_app; [exact X2|].
+          eapply sx_cons; [exact X3|apply sx_nil]. }
+        split; [|eapply same_ctl_trans; [|eapply same_ctl_trans; [exact C2|exact C3]]; constructor; reflexivity].
+        intro a'. rewrite marr_after_app. cbn. unfold upd_nat, addr. cbn [fst].
+        destruct (Nat.eqb a' a) eqn:E.
+        { apply Nat.eqb_eq in E. subst. rewrite A3. f_equal. symmetry. apply loopopt_repeat. exact Lo. }
+        { apply Nat.eqb_neq in E. rewrite (O3 a' E), A2.
+          apply marr_after_agree with (a := a); [|exact E]. intros x Hx. unfold s1. cbn [set_arr m_arr]. unfold upd_nat.
+          apply Nat.eqb_neq in Hx. rewrite Hx. reflexivity. }
+      * eapply IH; [exact H| |exact Wr|exact ND'].
+        replace (P ++ [XI (IArray (Z.of_nat n) a)] ++ stores a 0 l) with (P ++ (XI (IArray (Z.of_nat n) a) :: stores a 0 l)) by reflexivity.
+        apply InitOK_snoc with (d := (a, n, Some l)); [exact HP|right; exact I|].
+        intro s. set (s1 := set_arr s a (repeat None n)).
+        assert (E1 : exec_instr (IArray (Z.of_nat n) a) s = Some s1).
+        { cbn [exec_instr]. destruct (Z.of_nat n <? 0)%Z eqn:Ez; [apply Z.ltb_lt in Ez; lia|]. rewrite Nat2Z.id. reflexivity. }
+        destruct (stores_exec a l [] s1) as (s2 & X2 & A2 & O2 & C2).
+        { unfold s1. cbn [set_arr m_arr app]. unfold upd_nat. rewrite Nat.eqb_refl, Hn. reflexivity. }
+        exists s2. split; [eapply sx_cons; [apply sx_I; exact E1|exact X2]|]. cbn [addr fst decl_content].
+        split; [exact A2|]. split.
+        { intros a' Ha'. rewrite (O2 a' Ha'). unfold s1. cbn [set_arr m_arr]. unfold upd_nat.
+          apply Nat.eqb_neq in Ha'. rewrite Ha'. reflexivity. }
+        { eapply same_ctl_trans; [|exact C2]. constructor; reflexivity. }
+    + eapply IH; [exact H| |exact Wr|exact ND'].
+      apply InitOK_snoc with (d := (a, n, None)); [exact HP|right; exact I|].
+      intro s. set (s1 := set_arr s a (repeat None n)).
+      assert (E1 : exec_instr (IArray (Z.of_nat n) a) s = Some s1).
+      { cbn [exec_instr]. destruct (Z.of_nat n <? 0)%Z eqn:Ez; [apply Z.ltb_lt in Ez; lia|]. rewrite Nat2Z.id. reflexivity. }
+      exists s1. split; [apply sx_one; exact E1|]. cbn [addr fst decl_content].
+      split; [unfold s1; cbn [set_arr m_arr]; unfold upd_nat; rewrite Nat.eqb_refl; reflexivity|]. split.
+      { intros a' Ha'. unfold s1. cbn [set_arr m_arr]. unfold upd_nat. apply Nat.eqb_neq in Ha'. rewrite Ha'. reflexivity. }
+      { constructor; reflexivity. }
+Qed.
